@@ -7,9 +7,15 @@
 package main
 
 import (
+	"context"
 	"encoding/json"
 	"fmt"
 	"math/rand"
+	"os"
+	"os/exec"
+	"path/filepath"
+	"strings"
+	"sync"
 	"time"
 
 	"github.com/mycoria/mycoria/config"
@@ -177,8 +183,60 @@ func main() {
 	vf.Main("C03", "model_checking", run)
 }
 
+// inductive runs Apalache on SeqWindowInd: Init => IndInv, and IndInit /\ Next => clause' for every clause, in
+// parallel. Result per step: "ok", "violated", "timeout" or "error: ...".
+func inductive(c *vf.Ctx) map[string]string {
+	out := map[string]string{}
+	if _, err := exec.LookPath("apalache-mc"); err != nil {
+		out["apalache"] = "not installed"
+		return out
+	}
+	dir := filepath.Join(c.Work, "apalache")
+	_ = os.MkdirAll(dir, 0o755)
+	src, err := os.ReadFile(filepath.Join(vf.VerifRoot, "spec", "SeqWindowInd.tla"))
+	if err != nil {
+		out["apalache"] = "error: " + err.Error()
+		return out
+	}
+	type job struct{ name, init, inv, length string }
+	jobs := []job{{"base", "Init", "IndInv", "0"}}
+	for _, cl := range []string{"C1", "C2", "C3", "C4", "C5", "C6", "C7", "C8"} {
+		jobs = append(jobs, job{"step-" + cl, "IndInit", cl, "1"})
+	}
+	var mu sync.Mutex
+	var wg sync.WaitGroup
+	for _, j := range jobs {
+		wg.Add(1)
+		go func(j job) {
+			defer wg.Done()
+			jd := filepath.Join(dir, j.name)
+			_ = os.MkdirAll(jd, 0o755)
+			_ = os.WriteFile(filepath.Join(jd, "SeqWindowInd.tla"), src, 0o644)
+			ctx, cancel := context.WithTimeout(context.Background(), 45*time.Minute)
+			defer cancel()
+			cmd := exec.CommandContext(ctx, "apalache-mc", "check", "--init="+j.init, "--inv="+j.inv, "--length="+j.length, "SeqWindowInd.tla")
+			cmd.Dir = jd
+			b, err := cmd.CombinedOutput()
+			res := "error: " + fmt.Sprint(err)
+			switch {
+			case ctx.Err() != nil:
+				res = "timeout"
+			case strings.Contains(string(b), "EXITCODE: OK"):
+				res = "ok"
+			case strings.Contains(string(b), "Checker has found an error"):
+				res = "violated"
+			}
+			mu.Lock()
+			out[j.name] = res
+			mu.Unlock()
+		}(j)
+	}
+	wg.Wait()
+	return out
+}
+
 func run(c *vf.Ctx) {
-	c.Rule("M: TLC exhaustive on SeqWindow (W=4, numbers 1..9, <=7 deliveries). R: every edge of the dumped W=4 graph (numbers scaled x16 into the real 64-window, an exact homomorphism) and TLC -simulate walks at W=64 executed on SequenceHandler (both constructors), FrameV1.Unseal (4 encrypted message types) and LinkFrame.Unseal; T: seeded random delivery histories incl. signed frames validated by SeqWindow_Trace. distinct = distinct (binding, delivery history prefix hash) pairs whose last step is a duplicate, a behind-window or an in-window out-of-order delivery")
+	c.Rule("M: TLC exhaustive on SeqWindow (W=4, numbers 1..9, <=7 deliveries); thorough: Apalache proves the inductive invariant of SeqWindowInd at the real window size 64 for behaviours of any length (base case and 8 inductive steps in parallel). R: every edge of the dumped W=4 graph (numbers scaled x16 into the real 64-window, an exact homomorphism) and TLC -simulate walks at W=64 executed on SequenceHandler (both constructors), FrameV1.Unseal (4 encrypted message types) and LinkFrame.Unseal; T: seeded random delivery histories incl. signed frames validated by SeqWindow_Trace. distinct = distinct (binding, delivery history prefix hash) pairs whose last step is a duplicate, a behind-window or an in-window out-of-order delivery")
 	c.Assume("ChaCha20-Poly1305/Ed25519 are unforgeable (frames that fail authentication are not part of this property)",
 		"sequence numbers stay below 2^31 here; the wrap is C15")
 
@@ -196,6 +254,13 @@ func run(c *vf.Ctx) {
 	c.AddModel(mc.Distinct, mc.Generated)
 	c.Stage("M", map[string]any{"cfg": "SeqWindow_MC.cfg", "generated": mc.Generated, "distinct": mc.Distinct, "depth": mc.Depth, "wall_s": mc.Wall.Seconds()})
 	c.Logf("M: %d generated, %d distinct", mc.Generated, mc.Distinct)
+
+	// ---- M (unbounded, thorough): the inductive invariant at the real window size, clause by clause, with Apalache
+	var indDone chan map[string]string
+	if c.Thorough() {
+		indDone = make(chan map[string]string, 1)
+		go func() { indDone <- inductive(c) }()
+	}
 
 	a := world.NewParty(world.NewPrivacyIdentity(), config.Store{})
 	b := world.NewParty(world.NewPrivacyIdentity(), config.Store{})
@@ -446,6 +511,7 @@ func run(c *vf.Ctx) {
 			map[string]any{"binding": binding, "history": hist, "rejected_event": ev}, nil)
 	}
 	c.Logf("T: %d events in %d traces validated", len(events), traces)
+	collectInductive(c, indDone)
 }
 
 func initOf(r *vf.TLCResult) string {
@@ -496,6 +562,20 @@ func reproduce(w *world3, binding string, seq []int, scale int, got bool) bool {
 		return last == got
 	}
 	return false
+}
+
+func collectInductive(c *vf.Ctx, ch chan map[string]string) {
+	if ch == nil {
+		return
+	}
+	res := <-ch
+	c.Stage("M-inductive", res)
+	c.Logf("inductive invariant (Apalache, W=64, any length): %v", res)
+	for k, v := range res {
+		if v == "violated" {
+			c.Broken("the inductive invariant of SeqWindowInd is not inductive at %s (the argument is wrong, not the code)", k)
+		}
+	}
 }
 
 func lastStates(r *vf.TLCResult) string {
